@@ -26,6 +26,7 @@ pub fn registry() -> Vec<Box<dyn Scenario>> {
         Box::new(PayloadCut),
         Box::new(RdhWalk),
         Box::new(FsmWalk),
+        Box::new(Faults),
     ]
 }
 
@@ -1786,5 +1787,161 @@ impl Scenario for FsmWalk {
             left -= k;
         }
         Trial::FsmWalk { words, packet_lens, label: format!("illegal rate {}%", p_illegal / 10) }
+    }
+}
+
+// ------------------------------------------------------------------------------------------------
+// C02
+// ------------------------------------------------------------------------------------------------
+pub struct Faults;
+
+impl Scenario for Faults {
+    fn property(&self) -> &'static str {
+        "C02"
+    }
+    fn n_cases(&self, tier: Tier) -> u64 {
+        match tier {
+            Tier::Quick => 2_200,
+            Tier::Thorough => 110_000,
+        }
+    }
+    fn rule(&self) -> String {
+        format!(
+            "case = conforming multi-link stream (swarm grammar as in C01; stave-mode content in half of the cases) + \
+             ONE entry of the stream-fault catalogue ({} entries + {} stave-level entries, cycled so that every entry \
+             recurs >= 40 times in the quick tier) applied at a seeded applicable position (RDH / word occurrence, \
+             any link, any packet after the link's first two) with a seeded boundary value; the faulty stream is run \
+             in all check modes (4, or 5 with its-stave for stave-mode content), each with -E n and under its own \
+             seeded schedule. Entries: RDH sanity fields (E10), packet loss / duplication / adjacent reordering and \
+             page / stop / orbit / trigger / FEE edits (E11, E12, E110, E111), status-word and data-word IDs and \
+             reserved bits (E30, E40, E50, E60, E70, E990, E991, E992), continuation / orbit / BC / trigger relations \
+             (E41, E42, E44, E440-E445), CDW index (E81), inactive lane (E71, E72), connector 7 (E73), excess \
+             padding, missing lane / empty frame / frame end without start (E72, E73, E701, E59). Oracle (one-sided): \
+             in every mode where the rule is documented active, >= 1 message of the documented family at the byte \
+             offset of the offending RDH / word, and exit status == n; purely stateful violations are silent in \
+             check sanity. Cascading extra errors are allowed. Non-trivial: every case; distinct: (input hash, \
+             trace hash). `fault_kinds_fired` counts stream_fault:<entry> applications.",
+            itsgen::faults::FAULTS.len(),
+            itsgen::faults::STAVE_FAULTS.len()
+        )
+    }
+    fn make(&self, seed: u64, case: u64, _tier: Tier) -> Trial {
+        let mut rng = Rng::new(seed);
+        let nf = itsgen::faults::FAULTS.len() + itsgen::faults::STAVE_FAULTS.len();
+        let mut k = (case as usize) % nf;
+        // retry with fresh streams until the entry is applicable
+        for attempt in 0..60u64 {
+            let name: &'static str = if k < itsgen::faults::FAULTS.len() {
+                itsgen::faults::FAULTS[k]
+            } else {
+                itsgen::faults::STAVE_FAULTS[k - itsgen::faults::FAULTS.len()]
+            };
+            let stave_entry = k >= itsgen::faults::FAULTS.len();
+            let stave = stave_entry || rng.chance(1, 2);
+            let mut cfg = GenCfg::swarm(&mut rng, stave);
+            // make the structures the entries need likely
+            cfg.hbfs = (2, cfg.hbfs.1.max(3));
+            cfg.data_pages = (2, 4);
+            if matches!(name, "cdw_index") {
+                cfg.p_cdw = 700;
+            }
+            if matches!(name, "tdh_continuation_cleared" | "tdh_continuation_mismatch") {
+                cfg.p_split = 600;
+            }
+            if matches!(name, "tdh_bc_decreasing" | "tdh_id_choice_state") {
+                cfg.triggers = (2, 4);
+            }
+            if matches!(name, "tdh_bc_vs_rdh" | "tdh_trigger_vs_rdh") {
+                cfg.triggers = (1, 1);
+                cfg.p_internal = 1000;
+                cfg.p_split = 0;
+            }
+            if matches!(name, "excess_padding" | "rdh_data_format") {
+                cfg.data_format = 2;
+            }
+            if !stave {
+                cfg.data_words = (1, cfg.data_words.1.max(4));
+            }
+            if attempt > 20 {
+                cfg.p_no_data = 100;
+            }
+            let mut st = gen_conforming(&cfg, &mut rng);
+            let applied = match itsgen::faults::apply(&mut st, name, &mut rng) {
+                Some(a) => a,
+                None => continue,
+            };
+            let exit_code = rng.range(1, 255) as i32;
+            let input = st.bytes();
+            let im = pick_input_mode(&mut rng);
+            let mut runs = Vec::new();
+            let n_modes = if stave { 5 } else { 4 };
+            for m in 0..n_modes {
+                let mut parts = s(CHECK_MODES[m]);
+                parts.extend(s(&["-E", &exit_code.to_string()]));
+                let mut sp = specgen::spec(im.clone(), &parts, input.clone());
+                if rng.chance(2, 3) {
+                    swarm_schedule(&mut sp, &mut rng, 300 + st.total_packets() as u64 * 12);
+                }
+                runs.push((m, sp));
+            }
+            let expects = applied
+                .expects
+                .iter()
+                .map(|e| crate::trials::ExpectRec {
+                    codes: e.codes.iter().map(|c| c.to_string()).collect(),
+                    offset: e.offset,
+                    sanity: e.sanity,
+                    all: e.all,
+                    needs_its: e.needs_its,
+                    stave_only: e.stave_only,
+                })
+                .collect();
+            return Trial::Fault {
+                runs,
+                expects,
+                silent_in_sanity: applied.silent_in_sanity,
+                silent_in_sanity_no_target: applied.silent_in_sanity_no_target,
+                exit_code,
+                fault: applied.name.to_string(),
+            };
+        }
+        // never applicable for this seed: fall back to another entry (counted under its own name)
+        k = 0;
+        let cfg = GenCfg::swarm(&mut rng, false);
+        let mut st = gen_conforming(&cfg, &mut rng);
+        loop {
+            if let Some(applied) = itsgen::faults::apply(&mut st, itsgen::faults::FAULTS[k], &mut rng) {
+                let exit_code = 3;
+                let input = st.bytes();
+                let mut parts = s(CHECK_MODES[2]);
+                parts.extend(s(&["-E", "3"]));
+                let sp = specgen::spec(InputMode::File, &parts, input);
+                let expects = applied
+                    .expects
+                    .iter()
+                    .map(|e| crate::trials::ExpectRec {
+                        codes: e.codes.iter().map(|c| c.to_string()).collect(),
+                        offset: e.offset,
+                        sanity: e.sanity,
+                        all: e.all,
+                        needs_its: e.needs_its,
+                        stave_only: e.stave_only,
+                    })
+                    .collect();
+                return Trial::Fault {
+                    runs: vec![(2, sp)],
+                    expects,
+                    silent_in_sanity: false,
+                    silent_in_sanity_no_target: false,
+                    exit_code,
+                    fault: format!("fallback:{}", applied.name),
+                };
+            }
+            k += 1;
+            if k >= itsgen::faults::FAULTS.len() {
+                st = gen_conforming(&GenCfg::swarm(&mut rng, false), &mut rng);
+                k = 0;
+            }
+        }
     }
 }
